@@ -339,7 +339,7 @@ fn visit_tcp(
     let wsize: WindowSize = detect_win_multiplicator(
         tcp.get_window(),
         mss.unwrap_or(0),
-        ip_package_header_length as u16,
+        0, // let the classifier use the minimal IPv4/IPv6 + TCP header sizes
         olayout.contains(&TcpOption::TS),
         &version,
     );
